@@ -552,6 +552,12 @@ func checkCollector(c *Ctx, gc *ssa.Function) {
 	switch {
 	case sq.String() != recvT:
 		st, why = stateOf(false, vocabOf(recvT), sq), "the kept Part's sequence is "+short(sq.String())+", want the received construct"
+		// a part of the received value (the channel carries a record): a change of layout, not of what is kept
+		for x := sq; x != nil && len(x.Args) > 0 && (x.Op == "field" || x.Op == "deref" || x.Op == "extract" || x.Op == "index" || x.Op == "typeassert"); x = x.Args[0] {
+			if x.Args[0].String() == recvT {
+				st = unknown
+			}
+		}
 	case ci == nil || !ci.isConst("true"):
 		st, why = broken, "constructs are kept as linear Parts (Circular is not true)"
 	}
